@@ -141,6 +141,8 @@ def _seq_index(ex, st, args, dest_ty, func, where):
     """<Vec<T> as Index<usize | Range | RangeTo | RangeFrom>>::index with its bounds panic"""
     s = seq_of(ex, st, args[0])
     i = args[1]
+    if isinstance(i, VOpaque) and isinstance(i.what, tuple) and i.what[0] == "const" and str(i.what[1]).strip() in ("RangeFull", "std::ops::RangeFull", "..") or "RangeFull>>::index" in func:
+        return VRef("val", val=VSeq(s.arr, s.off, s.len, s.elem))
     if isinstance(i, VInt):
         ex.oblig("panic", where, "index out of bounds (%s)" % func, z3.And(st.guard, z3.Not(z3.And(i.t >= 0, i.t < s.len))))
         st.guard = simp(z3.And(st.guard, i.t < s.len))
